@@ -844,6 +844,13 @@ class Engine:
                 matched = xname
                 break
         if matched is None:
+            for xname, cond in contract.raises_if.items():
+                if self.exc_matches(exc, xname):
+                    ns.__dict__["exc"] = exc
+                    c = self.run_spec(ctx, cond, ns)
+                    ctx.oblige("%s/raises#%s" % (short(ctx.func), xname), lift_bool(c), kind="raises",
+                               info={"origin": exc.fields.get("__origin__")})
+                    return
             for xname in contract.may_raise:
                 if self.exc_matches(exc, xname):
                     return
@@ -1718,6 +1725,12 @@ class Engine:
                 pending_raise = True
         if pending_raise:
             raise PathEnd()  # some condition held: a normal return is excluded by the contract
+        for xname, cond in contract.raises_if.items():
+            if ctx.choose(2) == 1:
+                exc = ExcVal(self.exc_class(xname))
+                ns.__dict__["exc"] = exc
+                ctx.assume(lift_bool(self.run_spec(ctx, cond, ns)))
+                raise PyRaise(exc)
         for xname in contract.may_raise:
             if ctx.choose(2) == 1:
                 raise PyRaise(ExcVal(self.exc_class(xname)))
